@@ -126,7 +126,7 @@ func (fc *FnCtx) Translate() (err error) {
 				extra = append(extra, "ALL: "+w.Why)
 			}
 			for n := range w.Names {
-				if !declared.Has(n) && !strings.HasPrefix(n, "defer|") && !strings.HasPrefix(n, "lock|") {
+				if !declared.Has(n) && !strings.HasPrefix(n, "defer|") && !strings.HasPrefix(n, "lock|") && n != chanClosedName {
 					extra = append(extra, n)
 				}
 			}
